@@ -25,14 +25,15 @@ _mod = loader.module("mlmodel.kmeans_l1")
 
 def _build(case):
     dt = np.float32 if case["dtype"] == "float32" else np.float64
-    X = np.array(case["X"], dtype=dt)
+    off = float(case.get("offset", 0.0))
+    X = (np.array(case["X"], dtype=np.float64) + off).astype(dt)
     init = case["init"]
     if isinstance(init, list):
-        init = np.array(init, dtype=dt)
+        init = (np.array(init, dtype=np.float64) + off).astype(dt)
     kw = dict(n_clusters=case["k"], init=init, n_init=case["n_init"], max_iter=case["max_iter"], random_state=case["random_state"],
               tol=case["tol"])
     w = None if not case["ones_weight"] else np.ones(len(X))
-    Q = np.array(case["Q"], dtype=dt).reshape(-1, X.shape[1])
+    Q = (np.array(case["Q"], dtype=np.float64).reshape(-1, X.shape[1]) + off).astype(dt)
     return X, kw, w, Q
 
 
@@ -87,7 +88,7 @@ def check_l1(case):
         require(T.shape == DZ.shape and bool(np.all(np.abs(T - DZ) <= (1e-5 * scale if f32 else 0.0))), "l1:transform", name, facts)
     tie = bool(np.any(np.ptp(np.sort(D, axis=1)[:, :2], axis=1) == 0)) if k >= 2 else False
     dup = facts["n_distinct"] < n
-    labels = ["L1", case["dtype"], "init=" + facts["init"], "dup" if dup else "nodup", "tie" if tie else "notie",
+    labels = ["L1", case["dtype"], "offset=%g" % float(case.get("offset", 0.0)), "init=" + facts["init"], "dup" if dup else "nodup", "tie" if tie else "notie",
               "n==k" if n == k else "n>k", "k=1" if k == 1 else "k>=2", "used-clusters<k" if len(set(L.tolist())) < k else "all-clusters-used"]
     return Outcome(labels, dup or n == k or facts["init"] == "array" or tie)
 
@@ -147,7 +148,7 @@ def _cases(draw, tier="quick"):
     return dict(X=X, k=k, init=init, n_init=draw(st.integers(1, 3)), max_iter=draw(st.integers(1, 20)),
                 random_state=draw(st.one_of(st.none(), st.integers(0, 1000))), seed=draw(st.integers(0, 2**31 - 2)),
                 tol=draw(st.sampled_from([1e-4, 0.0, 1e-2])), dtype=draw(st.sampled_from(["float64", "float64", "float32"])),
-                ones_weight=draw(st.booleans()), Q=Q, algorithm=draw(st.sampled_from(["lloyd", "lloyd", "elkan"])),
+                ones_weight=draw(st.booleans()), Q=Q, offset=draw(st.sampled_from([0.0, 0.0, 0.0, 1024.0, 1048576.0])), algorithm=draw(st.sampled_from(["lloyd", "lloyd", "elkan"])),
                 l2_weights=draw(st.one_of(st.none(), st.lists(st.integers(1, 16).map(lambda v: v / 4.0), min_size=len(X), max_size=len(X)))))
 
 
